@@ -211,7 +211,68 @@ def _replay_worker(case, inputs_list, q):
     q.put((-1, None))
 
 
+class _Timeout(BaseException):
+    pass
+
+
+def _alarm(signum, frame):
+    raise _Timeout()
+
+
+def replay_inproc(case, inputs_list, timeout=20):
+    """native replays inside this process (no fork), each guarded by SIGALRM; module globals set through
+    ConH.set_global are restored afterwards"""
+    results = []
+    devnull = open(os.devnull, 'w')
+    old_out, old_err = sys.stdout, sys.stderr
+    old_handler = signal.signal(signal.SIGALRM, _alarm)
+    sym.set_cur(None)
+    try:
+        sys.stdout = sys.stderr = devnull
+        for inputs in inputs_list:
+            saved = []
+            orig_set = ConH.set_global
+
+            def tracking_set(self, module, name, v, _saved=saved):
+                _saved.append((module, name, getattr(module, name, _MISSING)))
+                setattr(module, name, v)
+            ConH.set_global = tracking_set
+            signal.alarm(timeout)
+            try:
+                r = _replay_one(case, inputs)
+            except _Timeout:
+                r = dict(failed=[], checked=[], assume_failed=False, error="timeout after %ds" % timeout, timeout=True)
+            finally:
+                signal.alarm(0)
+                ConH.set_global = orig_set
+                for module, name, v in reversed(saved):
+                    if v is _MISSING:
+                        try:
+                            delattr(module, name)
+                        except AttributeError:
+                            pass
+                    else:
+                        setattr(module, name, v)
+            results.append(r)
+    finally:
+        sys.stdout, sys.stderr = old_out, old_err
+        signal.signal(signal.SIGALRM, old_handler)
+        devnull.close()
+    return results
+
+
+_MISSING = object()
+
+
 def replay_many(case, inputs_list, timeout=30):
+    if not inputs_list:
+        return []
+    if not getattr(case, 'replay_in_child', False) and not case.check_resources:
+        return replay_inproc(case, inputs_list, timeout)
+    return replay_forked(case, inputs_list, timeout)
+
+
+def replay_forked(case, inputs_list, timeout=30):
     """run the case natively on each concrete input dict in one forked child (per-item timeout);
     a hanging item is killed and reported as timeout, the rest continues in a fresh child"""
     results = [None] * len(inputs_list)
@@ -265,9 +326,17 @@ def run_case(case, tier='quick'):
     t0 = time.time()
     stubs = case.make_stubs()
 
+    covers = []
+    ncover = 10 ** 9 if tier == 'thorough' else 3
+
     def runner(path):
         H = SymH(path, stubs, drop=case.drop, max_loop=case.max_loop)
         case.run(H)
+        # cover: a model of the completed path = concrete inputs that reach it (vacuity guard + CPython differential)
+        if len(covers) < ncover and path.inputs and getattr(case, 'native_cover', True):
+            if path.solver.check() == z3.sat:
+                m = path.solver.model()
+                covers.append(dict((n, explore.model_value(m, e)) for n, e in path.inputs.items()))
 
     tmo = case.timeout_ms * (6 if tier == 'thorough' else 1)
     ex = explore.Explorer(case.name, runner, timeout_ms=tmo, max_paths=case.max_paths,
@@ -301,6 +370,15 @@ def run_case(case, tier='quick'):
             if rec['confirmed']:
                 confirmed.append(rec)
         ob['confirmed'] = len(confirmed)
+    # differential: natively replay one model per covered path; a clause the engine proved must hold natively
+    cover_fail = []
+    proved = set(ob['name'].split('::', 1)[1] for ob in out['obligations'] if ob['verdict'] == 'proved')
+    for c, r in zip(covers, replay_many(case, covers, timeout=20)):
+        bad = [cl for cl in r['failed'] if cl in proved]
+        if bad or (r.get('error') and not r['assume_failed'] and not r.get('timeout')):
+            cover_fail.append(dict(inputs=c, failed=bad, error=r.get('error')))
+    out['cover_runs'] = len(covers)
+    out['cover_failures'] = cover_fail
     # boundary seeds (native only)
     seed_fail = []
     seeds = list(case.seeds)
